@@ -9,7 +9,7 @@ vars == <<s, hist>>
 \* every program of the family is also printed as JSON so that the harness can run it on the real interpreter
 Init == \E p \in Family : PrintT(<<"PROGRAM", ToJson(p)>>) /\ s = I!Start(p) /\ hist = <<>>
 Next == /\ s.run
-        /\ \E t \in I!Steps(s) : s' = t /\ hist' = hist \o t.out
+        /\ \E t \in {u \in I!Steps(s) : ~u.kf} : s' = t /\ hist' = hist \o t.out     \* (kf: branch of a listed deviation, not the property)
 Spec == Init /\ [][Next]_vars
 
 \* when a program of the family has stopped, it ended normally and printed exactly the declared sequence
